@@ -35,7 +35,7 @@ Theorem C10_key_styles_in_context : forall s st t r p d,
 Proof. exact key_styles_rt. Qed.
 Print Assumptions C10_key_styles_in_context.
 
-(* a default style exists for every string (release arithmetic: the u8 run counters wrap) *)
+(* a default style exists for every string *)
 Theorem C10_default_total : forall s, write_string StDefault s <> None /\ write_key KDefault s <> None.
 Proof. exact default_total. Qed.
 Print Assumptions C10_default_total.
@@ -51,11 +51,12 @@ Theorem C10_in_document : forall k v tk tv,
 Proof. exact in_document. Qed.
 Print Assumptions C10_in_document.
 
-(* FINDING: with overflow checks on, the metrics pass overflows its u8 counter on 256 consecutive
-   quote characters (TomlStringBuilder::new panics) *)
-Theorem C10_overflow_refuted : exists s, vmetrics_of false s = WOverflow.
-Proof. exact (ex_intro _ (repeat x27 256) overflow_witness). Qed.
-Print Assumptions C10_overflow_refuted.
+(* the u8 quote-run counters of the metrics pass saturate, so no string can overflow them (before the
+   repair 245f548 in /repo, 256 consecutive quote characters made TomlStringBuilder::new panic in a build
+   with overflow checks) *)
+Theorem C10_counters_saturate : forall cur hit, (cur <= 255)%N -> (qnext cur hit <= 255)%N.
+Proof. exact counters_saturate. Qed.
+Print Assumptions C10_counters_saturate.
 
 (* ---- the hypotheses are satisfiable; nasty strings ------------------------------------------------ *)
 (* empty string *)
@@ -106,8 +107,9 @@ Example ex_keys : write_key KDefault [x61; x2d; x5f; x39] = Some [x61; x2d; x5f;
   /\ write_key KUnquoted [x61; x2e; x62] = None /\ write_key KDefault [x61; x2e; x62] = Some [x22; x61; x2e; x62; x22]
   /\ write_key KDefault [x22] = Some [x27; x22; x27] /\ write_key KDefault [x22; x27] = Some [x22; x5c; x22; x27; x22].
 Proof. vm_compute. auto 10. Qed.
-(* 255 quote characters do not overflow; 256 do (debug) and wrap (release) *)
-Example ex_255 : exists m, vmetrics_of false (repeat x22 255) = WOk m /\ max_seq_double_quotes m = 255%N.
-Proof. eexists. vm_compute. auto. Qed.
-Example ex_256_release : rt_value_ok (repeat x27 256) = true /\ rt_value_ok (repeat x22 256) = true.
+(* the counters saturate at 255 *)
+Example ex_255 : max_seq_double_quotes (vmetrics_of (repeat x22 255)) = 255%N
+  /\ max_seq_double_quotes (vmetrics_of (repeat x22 256)) = 255%N.
+Proof. vm_compute. auto. Qed.
+Example ex_256 : rt_value_ok (repeat x27 256) = true /\ rt_value_ok (repeat x22 256) = true.
 Proof. vm_compute. auto. Qed.
